@@ -27,6 +27,13 @@ ACTIVITIES = {
     "sink": "for x in channel:\n    pass",
     "two": "channel.receive()",  # plus a second body sleeping in a non-main thread
     "swallow-recv": "em = channel.gateway.execmodel\nwhile True:\n    try:\n        channel.receive()\n    except EOFError:\n        em.sleep(0.05)",
+    # what the worker's channels look like when the connection goes: callbacks registered on channels
+    # whose objects are gone / still held / that fail on the endmarker, and many open channels
+    "cb-dropped": "c = channel.gateway.newchannel()\nc.setcallback(lambda x: None)\ndel c",
+    "cb-held": "c = channel.gateway.newchannel()\nc.setcallback(lambda x: None, endmarker=None)\nchannel.gateway._vp_keep = c",
+    "cb-two-dropped": "for i in range(2):\n    c = channel.gateway.newchannel()\n    c.setcallback(lambda x: None, endmarker=None)\n    del c\nchannel.receive()",
+    "cb-raise-end": "def cb(x):\n    raise ValueError('callback fails on %r' % (x,))\nc = channel.gateway.newchannel()\nc.setcallback(cb, endmarker=None)\nchannel.gateway._vp_keep = c",
+    "many-open": "channel.gateway._vp_keep = [channel.gateway.newchannel() for i in range(3)]\nchannel.receive()",
 }
 
 
@@ -149,7 +156,7 @@ def run(tier: str, only=None) -> int:
                 continue
             if backend == "gevent" and act in ("two",) :
                 continue
-            if tier == "quick" and backend != "thread" and act in ("busy", "send", "sink", "daemon"):
+            if tier == "quick" and backend != "thread" and act in ("busy", "send", "sink", "daemon", "cb-held", "cb-two-dropped", "many-open"):
                 continue
             P = {"activity": act, "backend": backend, "N": None}
             ref = explorer.run_once(OrphanScn.scenario, OrphanScn.oracle, P, [])
